@@ -19,7 +19,10 @@ CONSTANTS Emit, Prop
 Numerals == << <<51>>, <<51,101,48>>, <<51,48,101,45,49>>, <<48,46,51,101,49>>, <<51,46,48,48,48>>, <<51,48,48,48,48,48,48,48,48,48,48,48,48,48,48,48,48,48,48,48,48,101,45,50,48>>, <<51,46,48,48,48,48,48,48,48,48,48,48,48,48,48,48,48,48,48,48,48,48,48,48,48,48,48,48,48,48,48,48,48,48,48,48>>,
                <<51,46,48,48,48,48,48,48,48,48,48,48,48,48,48,48,48,49>>, <<50,46,57,57,57,57,57,57,57,57,57,57,57,57,57,57,57,57>>, <<51,46,48,48,48,48,48,48,48,48,48,48,48,48,48,48,48,48,48,48,48,48,48,48,48,48,48,48,48,48,48,48,48,48,49>>, <<49,101,45,52,48,48>>, <<48,46,48,48,48,48,48,48,48,48,48,48,48,48,48,48,48,48,48,48,48,48,48,48,48,48,48,48,48,48,48,48,48,48,48,48,48,48,49>>,
                <<48,101,57,57>>, <<48,46,48>>, <<45,48>>, <<45,48,46,48,101,53>>, <<50>>, <<50,46,48>>, <<50,48,101,45,49>>, <<49,46,57,57,57,57,57,57,57,57,57,57,57,57,57,57,57,57,57,57,57>>, <<50,46,53>>, <<50,53,101,45,49>>, <<45,49>>, <<45,49,46,48>>, <<45,49,101,48>>,
-               <<45,48,46,48,48,48,48,48,48,48,48,48,48,48,48,48,48,48,48,48,48,49>>, <<49,101,48>>, <<49,48,101,45,49>>, <<48,46,49,101,49>>, <<54,101,48>>, <<48,46,54,101,49>>, <<53,46,57,57,57,57,57,57,57,57,57,57,57,57,57,57,57,57,57,57,57,57,57,57>> >>
+               <<45,48,46,48,48,48,48,48,48,48,48,48,48,48,48,48,48,48,48,48,48,49>>, <<49,101,48>>, <<49,48,101,45,49>>, <<48,46,49,101,49>>, <<54,101,48>>, <<48,46,54,101,49>>, <<53,46,57,57,57,57,57,57,57,57,57,57,57,57,57,57,57,57,57,57,57,57,57,57>>,
+               \* exponents far outside every numeric range: zero stays zero, anything else is out of range
+               <<48,101,57,57,57,57,57,57,57,57,57,57,57,57,57,57,57,57,57,57>>, <<48,101,45,57,57,57,57,57,57,57,57,57,57,57,57,57,57,57,57,57,57>>, <<48,46,48,48,48,101,43,57,57,57,57,57,57,57,57,57,57,57>>, <<49,101,57,57,57,57,57,57,57,57,57,57,57,57,57,57,57,57,57,57>>, <<51,101,45,57,57,57,57,57,57,57,57,57,57,57,57,57,57,57,57,57,57>>,
+               <<48,101,54,49,52,52>>, <<48,101,45,54,49,55,54>>, <<50,101,48,48,48,48,48,48,48,48,48,48,48,48,48,48,48,48,48,48,48,48,48,48>>, <<50,48,101,45,48,48,48,48,48,48,48,48,48,48,48,48,48,48,48,48,48,48,48,48,48,49>> >>
 
 \* digits of a JSON numeral -> Decimal (the numeral grammar is JSON's)
 DigitsOf(s) == SelectSeq(s, LAMBDA c : c >= 48 /\ c <= 57)
@@ -35,9 +38,18 @@ ParseDec(s) ==
       eDs  == DigitsOf(expS)
       RECURSIVE V(_)
       V(q) == IF q = <<>> THEN 0 ELSE V(SubSeq(q, 1, Len(q) - 1)) * 10 + (q[Len(q)] - 48)
-      ex   == IF eNeg THEN 0 - V(eDs) ELSE V(eDs)
-  IN Norm(neg, ds, ex - frac)
+      \* exponent digits without leading zeros; more than 6 of them are beyond every range
+      ez   == SelectSeq(eDs, LAMBDA c : TRUE)
+      RECURSIVE Lead(_)
+      Lead(q) == IF Len(q) > 0 /\ q[1] = 48 THEN Lead(Tail(q)) ELSE q
+      eSig == Lead(eDs)
+      huge == Len(eSig) > 6
+      ex   == IF huge THEN 0 ELSE IF eNeg THEN 0 - V(eSig) ELSE V(eSig)
+      d0   == Norm(neg, ds, ex - frac)
+  IN IF ~huge \/ IsZero(d0) THEN (IF huge THEN DZero ELSE d0)
+     ELSE Dec(neg, <<9, 9>>, 7777)        \* marker: a non-zero number outside every numeric range (see OutOfRange)
 Integral(d) == IsZero(d) \/ d.e >= 0
+OutOfRange(d) == d.ds = <<9, 9>> /\ d.e = 7777      \* not pinned: beyond the decimal range the property speaks about
 RECURSIVE NatOf(_)
 NatOf(ds) == IF ds = <<>> THEN 0 ELSE NatOf(SubSeq(ds, 1, Len(ds) - 1)) * 10 + ds[Len(ds)]
 SmallVal(d) == IF IsZero(d) THEN 0 ELSE (IF d.neg THEN 0 - 1 ELSE 1) * NatOf(d.ds \o Zeros(d.e))     \* integral, few digits
@@ -66,8 +78,9 @@ Check == idx > 0 =>
   LET txt == Numerals[bucket]
       d   == ParseDec(txt)
       big == Templates(NLit(txt))
-      can == IF Integral(d) THEN Templates(NLit(Canon(SmallVal(d)))) ELSE big
-      adm(i) == IF ~Integral(d) THEN {Err("invalid-value")} ELSE Admissible(can[i], Doc)
+      can == IF Integral(d) /\ ~OutOfRange(d) THEN Templates(NLit(Canon(SmallVal(d)))) ELSE big
+      adm(i) == IF OutOfRange(d) THEN {Open}
+                ELSE IF ~Integral(d) THEN {Err("invalid-value")} ELSE Admissible(can[i], Doc)
       cases == { [expr |-> Render(big[i]), adm |-> adm(i)] : i \in 1..Len(big) }
       case == [p |-> Prop, kind |-> "search", doc |-> Doc, multi |-> cases]
   IN /\ Emit => PrintT("CASE " \o ToJson(case))
